@@ -11,7 +11,10 @@
    3. JSON literals denote themselves at the AST level: obj_of_list_perm, eval_array_literal,
       object_literal, C11_literal_denotes.
    4. null / true / false, negative number literals, and the text-level corollaries
-      C11_string_denotes, C11_denotes_partial. *)
+      C11_string_denotes, C11_denotes_partial.
+   5. Number tokens: scan_number_fun / scan_number_spec (what scanNumber accepts, as the
+      function num_len of the remaining input), num_len_json / scan_json_number (the JSON number
+      grammar is accepted token-exactly). *)
 From JV Require Import Model.Value Model.Eval Proofs.MonadFacts Spec.C14 Proofs.C14Proofs.
 From JV Require Import Model.Lexer Model.Parser Proofs.LexerProofs Proofs.ParserProofs
   Proofs.Utf8Proofs Proofs.C04Proofs Spec.C11.
@@ -370,12 +373,10 @@ Proof.
   destruct (hex_val_facts _ _ E3) as (B3 & A3 & _).
   assert (Hr : 0 <= v < 65536) by lia.
   split; [cbn [all_ascii]; lia|]. split; [reflexivity|]. split; [|exact Hr].
-  unfold parseRune, parse_int16_32.
-  change (ch "+") with 43. change (ch "-") with 45.
-  replace (byte_of c0 =? 43) with false by lia. replace (byte_of c0 =? 45) with false by lia.
-  unfold parse_uint16. cbn [all_hex]. rewrite E0, E1, E2, E3.
+  unfold parseRune, parse_uint16_32, parse_uint16. cbn [all_hex]. rewrite E0, E1, E2, E3.
   unfold Z_of_hex. cbn [Z_of_hex_acc]. rewrite E0, E1, E2, E3.
   replace (16 * (16 * (16 * (16 * 0 + x0) + x1) + x2) + x3) with v by lia.
+  replace (v >=? 4294967296) with false by lia.
   replace (v >=? 2147483648) with false by lia. reflexivity.
 Qed.
 
@@ -523,9 +524,13 @@ Proof.
   replace (esc =? 117) with false by lia. reflexivity.
 Qed.
 
-(* backslash u followed by four runes that are not a (signed) hexadecimal number *)
+(* anything but four hexadecimal digits after backslash u is rejected: no sign, no blank, no
+   shorter number (since the repair "fix: a sign is accepted in a \u escape") *)
+Lemma parseRune_not_hex hex : all_hex hex = false -> parseRune hex = -1.
+Proof. intros H. unfold parseRune, parse_uint16_32, parse_uint16. rewrite H. destruct hex; reflexivity. Qed.
+
 Theorem unescape_rejects_hex f pre s2 hex w4 : no_bs pre = true ->
-  decodeRunes s2 4 = ROk (hex, w4) -> parse_int16_32 hex = None ->
+  decodeRunes s2 4 = ROk (hex, w4) -> all_hex hex = false ->
   unescape (S f) (pre ++ String bs (String "u" s2)) = ROk ("u" ++ hex, false)%string.
 Proof.
   intros Hpre Hd Hp. rewrite unescape_prefix by exact Hpre. rewrite unescape_bs.
@@ -533,16 +538,14 @@ Proof.
   change (byte_of "u") with 117. change (jsonEscapes 117) with EmptyString.
   cbn [is_empty negb]. change (117 =? 117) with true. cbv iota zeta.
   change (sdrop 1 (String "u" s2)) with s2. rewrite Hd. cbn [rbind].
-  unfold parseRune. rewrite Hp. reflexivity.
+  rewrite (parseRune_not_hex hex Hp). reflexivity.
 Qed.
 
-(* four runes one of which is not a hexadecimal digit (and no sign in front) do not parse *)
-Lemma parse_int16_32_not_hex c r : byte_of c <> 43 -> byte_of c <> 45 ->
-  all_hex (String c r) = false -> parse_int16_32 (String c r) = None.
+(* conversely the four runes after an accepted backslash u are hexadecimal digits *)
+Lemma parseRune_accepts hex : parseRune hex <> -1 -> all_hex hex = true /\ hex <> EmptyString.
 Proof.
-  intros H1 H2 Hh. unfold parse_int16_32. change (ch "+") with 43. change (ch "-") with 45.
-  replace (byte_of c =? 43) with false by lia. replace (byte_of c =? 45) with false by lia.
-  unfold parse_uint16. rewrite Hh. reflexivity.
+  intros H. destruct (all_hex hex) eqn:E; [|rewrite parseRune_not_hex in H by exact E; congruence].
+  split; [reflexivity|]. intros ->. apply H. reflexivity.
 Qed.
 
 (* an unpaired surrogate escape: a surrogate code unit that is not followed by backslash u, or
@@ -715,7 +718,7 @@ Qed.
 
 Theorem C11_rejects_hex t p pre s2 hex w4 : tvalue t = pre ++ String bs (String "u" s2) ->
   no_bs pre = true -> decodeRunes s2 4 = ROk (hex, w4) ->
-  (parse_int16_32 hex = None \/
+  (all_hex hex = false \/
    (utf16_is_surrogate (parseRune hex) = true /\
     exists hex2 w6, decodeRunes (sdrop (Z.to_nat w4) s2) 6 = ROk (hex2, w6) /\
       (sprefix "\u" hex2 = false \/
@@ -1398,6 +1401,476 @@ Example C11_rejects_ex (pn : string -> numlit) (rc : string -> option string) (f
   (exists e, parse pn rc fg q (parse_fuel bad1) bad1 = RErr e /\ etype e = ErrIllegalEscape) /\
   (exists e, parse pn rc fg q (parse_fuel bad2) bad2 = RErr e /\ etype e = ErrIllegalEscapeHex).
 Proof. split; eexists; split; vm_compute; reflexivity. Qed.
+
+Open Scope Z_scope.
+
+(* ==================================================================================== *)
+(* 5. Number tokens                                                                      *)
+(* ==================================================================================== *)
+
+(* ---- 5.0 accept / acceptAll for classes of ASCII characters ---- *)
+
+Section Classes.
+Variable P : rune -> bool.
+Hypothesis P_ascii : forall r, P r = true -> 0 <= r < 128.
+
+Definition headP (s : string) : bool :=
+  match s with String c _ => P (byte_of c) | EmptyString => false end.
+Fixpoint span (s : string) : nat :=
+  match s with String c r => if P (byte_of c) then S (span r) else O | EmptyString => O end.
+
+Lemma P_eof : P eof = false.
+Proof. destruct (P eof) eqn:E; [apply P_ascii in E; unfold eof in E; lia|reflexivity]. Qed.
+
+Lemma first_rune_P c s : P (fst (decode_rune (String c s))) = P (byte_of c).
+Proof.
+  destruct (Z.ltb_spec (byte_of c) 128) as [L|L].
+  - rewrite decode_rune_ascii by exact L. reflexivity.
+  - destruct (decode_rune_high c s L) as (Hr & _).
+    destruct (P (fst _)) eqn:E1; [apply P_ascii in E1; lia|].
+    destruct (P (byte_of c)) eqn:E2; [apply P_ascii in E2; lia|reflexivity].
+Qed.
+
+Lemma accept_cls inp st cur wd : 0 <= cur ->
+  exists w, accept P (mkL inp st cur wd) =
+            if headP (sdrop (Z.to_nat cur) inp) then ROk (true, mkL inp st (cur + 1) 1)
+            else ROk (false, mkL inp st cur w).
+Proof.
+  intros Hc. rewrite accept_mkL by (auto using P_eof). cbv zeta.
+  destruct (sdrop (Z.to_nat cur) inp) as [|c s] eqn:Es; cbn [headP].
+  - eexists; reflexivity.
+  - eexists. rewrite first_rune_P. destruct (P (byte_of c)) eqn:E.
+    + rewrite decode_rune_ascii by (apply P_ascii in E; lia). cbn [snd]. reflexivity.
+    + reflexivity.
+Qed.
+
+Lemma acceptAll_cls : forall fuel inp st cur wd b, 0 <= cur ->
+  (span (sdrop (Z.to_nat cur) inp) < fuel)%nat ->
+  let n := span (sdrop (Z.to_nat cur) inp) in
+  exists w, acceptAllLoop fuel P b (mkL inp st cur wd) =
+            ROk (b || negb (Nat.eqb n 0), mkL inp st (cur + Z.of_nat n) w).
+Proof.
+  induction fuel as [|f IH]; intros inp st cur wd b Hc Hf n; [lia|].
+  cbn [acceptAllLoop]. unfold sbind.
+  destruct (accept_cls inp st cur wd Hc) as (w & Ha). rewrite Ha. subst n.
+  destruct (sdrop (Z.to_nat cur) inp) as [|c s] eqn:Es; cbn [headP span] in *.
+  - exists w. unfold sret. rewrite orb_false_r. f_equal. f_equal. apply mkL_eq; lia.
+  - destruct (P (byte_of c)) eqn:E.
+    + assert (Es' : sdrop (Z.to_nat (cur + 1)) inp = s).
+      { replace (Z.to_nat (cur + 1)) with (S (Z.to_nat cur)) by lia. eapply sdrop_next; eauto. }
+      destruct (IH inp st (cur + 1) 1 true) as (w' & Hb'); [lia|rewrite Es'; lia|].
+      rewrite Es' in Hb'. exists w'. rewrite Hb'. cbn [Nat.eqb negb orb]. rewrite orb_true_r.
+      f_equal. f_equal. apply mkL_eq; lia.
+    + exists w. unfold sret. rewrite orb_false_r. f_equal. f_equal. apply mkL_eq; lia.
+Qed.
+
+End Classes.
+
+Lemma newToken_mkL ty inp st cur wd : 0 <= st <= cur -> cur <= Z.of_nat (slen inp) ->
+  newToken ty (mkL inp st cur wd) =
+  ROk ({| ttype := ty; tvalue := sslice (Z.to_nat st) (Z.to_nat cur) inp; tpos := st |},
+       mkL inp cur cur 0).
+Proof.
+  intros H1 H2. unfold newToken, llength. cbn [mkL start current input].
+  replace ((0 <=? st) && (st <=? cur) && (cur <=? Z.of_nat (slen inp))) with true by lia. reflexivity.
+Qed.
+
+Lemma isDigit_ascii r : isDigit r = true -> 0 <= r < 128.
+Proof. unfold isDigit. change (ch "0") with 48. change (ch "9") with 57. lia. Qed.
+Lemma isNonZeroDigit_ascii r : isNonZeroDigit r = true -> 0 <= r < 128.
+Proof. unfold isNonZeroDigit. change (ch "1") with 49. change (ch "9") with 57. lia. Qed.
+Lemma is1_ascii a r : 0 <= a < 128 -> (r =? a) = true -> 0 <= r < 128.
+Proof. lia. Qed.
+Lemma is2_ascii a b r : 0 <= a < 128 -> 0 <= b < 128 -> ((r =? a) || (r =? b)) = true -> 0 <= r < 128.
+Proof. lia. Qed.
+
+(* ---- 5.1 what scanNumber accepts, as a function of the remaining input ---- *)
+
+Definition is0 (r : rune) : bool := r =? 48.
+Definition isDot (r : rune) : bool := r =? 46.
+Definition isE (r : rune) : bool := (r =? 101) || (r =? 69).
+Definition isSign (r : rune) : bool := (r =? 43) || (r =? 45).
+
+(* 0, or a non-zero digit followed by digits *)
+Definition int_len (s : string) : nat :=
+  if headP is0 s then 1%nat
+  else if headP isNonZeroDigit s then S (span isDigit (sdrop 1 s))
+  else 0%nat.
+(* e or E, an optional sign, digits (possibly none) *)
+Definition exp_len (s : string) : nat :=
+  if headP isE s then
+    let s' := sdrop 1 s in
+    let k := if headP isSign s' then 1%nat else 0%nat in
+    (1 + k + span isDigit (sdrop k s'))%nat
+  else 0%nat.
+(* the integer part; then, if a dot and at least one digit follow, the fraction; then the
+   exponent.  A dot that is not followed by a digit ends the token BEFORE the dot (and no
+   exponent is looked for). *)
+Definition num_len (s : string) : nat :=
+  let i := int_len s in
+  let s1 := sdrop i s in
+  if headP isDot s1 then
+    let d := span isDigit (sdrop 1 s1) in
+    if Nat.eqb d 0 then i else (i + 1 + d + exp_len (sdrop (1 + d) s1))%nat
+  else (i + exp_len s1)%nat.
+
+Lemma span_le P s : (span P s <= slen s)%nat.
+Proof. induction s as [|c r IH]; cbn [span slen String.length]; [lia|]. destruct (P (byte_of c)); unfold slen in *; lia. Qed.
+
+Lemma headP_nonempty P s : headP P s = true -> (1 <= slen s)%nat.
+Proof. destruct s; [discriminate|]. cbn [slen String.length]. lia. Qed.
+
+Lemma int_len_le s : (int_len s <= slen s)%nat.
+Proof.
+  unfold int_len. destruct (headP is0 s) eqn:E0; [apply headP_nonempty in E0; lia|].
+  destruct (headP isNonZeroDigit s) eqn:E1; [|lia].
+  destruct s as [|c r]; [discriminate|]. cbn [sdrop]. pose proof (span_le isDigit r). cbn [slen String.length]. unfold slen in *. lia.
+Qed.
+
+Lemma exp_len_le s : (exp_len s <= slen s)%nat.
+Proof.
+  unfold exp_len. destruct (headP isE s) eqn:E0; [|lia].
+  destruct s as [|c r]; [discriminate|]. cbn [sdrop]. cbv zeta.
+  destruct (headP isSign r) eqn:E1.
+  - destruct r as [|c2 r2]; [discriminate|]. cbn [sdrop]. pose proof (span_le isDigit r2).
+    cbn [slen String.length]. unfold slen in *. lia.
+  - cbn [sdrop]. pose proof (span_le isDigit r). cbn [slen String.length]. unfold slen in *. lia.
+Qed.
+
+Lemma num_len_le s : (num_len s <= slen s)%nat.
+Proof.
+  unfold num_len. cbv zeta. pose proof (int_len_le s) as Hi.
+  set (i := int_len s) in *. set (s1 := sdrop i s).
+  assert (H1 : slen s1 = (slen s - i)%nat) by apply slen_sdrop.
+  destruct (headP isDot s1) eqn:Ed.
+  - pose proof (headP_nonempty _ _ Ed).
+    pose proof (span_le isDigit (sdrop 1 s1)) as Hd. rewrite slen_sdrop in Hd.
+    destruct (Nat.eqb (span isDigit (sdrop 1 s1)) 0); [lia|].
+    pose proof (exp_len_le (sdrop (1 + span isDigit (sdrop 1 s1)) s1)) as He. rewrite slen_sdrop in He. lia.
+  - pose proof (exp_len_le s1). lia.
+Qed.
+
+Lemma sdrop_at inp cur s k : 0 <= cur -> sdrop (Z.to_nat cur) inp = s ->
+  sdrop (Z.to_nat (cur + Z.of_nat k)) inp = sdrop k s.
+Proof.
+  intros Hc <-. replace (Z.to_nat (cur + Z.of_nat k)) with (Z.to_nat cur + k)%nat by lia.
+  rewrite sdrop_sdrop. reflexivity.
+Qed.
+
+Lemma not_digit_span s : headP is0 s = false -> headP isNonZeroDigit s = false -> span isDigit s = 0%nat.
+Proof.
+  destruct s as [|c r]; [reflexivity|]. cbn [headP span]. unfold is0, isNonZeroDigit, isDigit.
+  change (ch "0") with 48. change (ch "1") with 49. change (ch "9") with 57. intros H1 H2.
+  replace ((48 <=? byte_of c) && (byte_of c <=? 57)) with false by lia. reflexivity.
+Qed.
+
+(* the integer part *)
+Lemma scan_int fuel inp st cur wd s : 0 <= cur -> sdrop (Z.to_nat cur) inp = s -> (slen s < fuel)%nat ->
+  exists w,
+    (do z <- acceptRune (ch "0");
+     if negb z then (do _a <- accept isNonZeroDigit; do _b <- acceptAll fuel isDigit; sret tt)
+     else sret tt) (mkL inp st cur wd) =
+    ROk (tt, mkL inp st (cur + Z.of_nat (int_len s)) w).
+Proof.
+  intros Hc Hs Hf. unfold sbind at 1. unfold acceptRune.
+  destruct (accept_cls is0 ltac:(unfold is0; intros; lia) inp st cur wd Hc) as (w0 & H0).
+  change (fun c : rune => c =? ch "0") with is0. rewrite H0. rewrite Hs. unfold int_len.
+  destruct (headP is0 s) eqn:E0.
+  - cbn [negb]. exists 1. reflexivity.
+  - cbn [negb]. unfold sbind at 1.
+    destruct (accept_cls isNonZeroDigit isNonZeroDigit_ascii inp st cur w0 Hc) as (w1 & H1).
+    rewrite H1, Hs.
+    destruct (headP isNonZeroDigit s) eqn:E1.
+    + assert (Hs1 : sdrop (Z.to_nat (cur + 1)) inp = sdrop 1 s) by (apply (sdrop_at inp cur s 1); auto).
+      pose proof (span_le isDigit (sdrop 1 s)) as Hle. rewrite slen_sdrop in Hle.
+      destruct (acceptAll_cls isDigit isDigit_ascii fuel inp st (cur + 1) 1 false) as (w2 & H2);
+        [lia|rewrite Hs1; lia|].
+      unfold sbind, acceptAll. rewrite H2, Hs1. exists w2. unfold sret. try (f_equal; try (f_equal; try (apply mkL_eq; lia))).
+    + pose proof (not_digit_span s E0 E1) as Hsp.
+      destruct (acceptAll_cls isDigit isDigit_ascii fuel inp st cur w1 false) as (w2 & H2);
+        [lia|rewrite Hs; lia|].
+      unfold sbind, acceptAll. rewrite H2, Hs, Hsp. exists w2. unfold sret. try (f_equal; try (f_equal; try (apply mkL_eq; lia))).
+Qed.
+
+(* the exponent part and the token *)
+Lemma scan_exp fuel inp st cur wd s : 0 <= st <= cur -> sdrop (Z.to_nat cur) inp = s ->
+  (slen s < fuel)%nat -> cur + Z.of_nat (slen s) <= Z.of_nat (slen inp) ->
+  (do e <- acceptRunes2 (ch "e") (ch "E");
+   (if e then (do _a <- acceptRunes2 (ch "+") (ch "-"); do _b <- acceptAll fuel isDigit; sret tt)
+    else sret tt) ;;
+   newToken typeNumber) (mkL inp st cur wd) =
+  let c' := cur + Z.of_nat (exp_len s) in
+  ROk ({| ttype := typeNumber; tvalue := sslice (Z.to_nat st) (Z.to_nat c') inp; tpos := st |},
+       mkL inp c' c' 0).
+Proof.
+  intros Hc Hs Hf Hlen. cbv zeta. pose proof (exp_len_le s) as Hle.
+  unfold sbind, acceptRunes2, acceptAll, sret.
+  destruct (accept_cls isE ltac:(unfold isE; intros; lia) inp st cur wd ltac:(lia)) as (w0 & H0).
+  change (fun c : rune => (c =? ch "e") || (c =? ch "E")) with isE. rewrite H0, Hs.
+  unfold exp_len in *. destruct (headP isE s) eqn:E0; cbv beta iota.
+  - cbv zeta in *.
+    destruct (accept_cls isSign ltac:(unfold isSign; intros; lia) inp st (cur + 1) 1 ltac:(lia)) as (w1 & H1).
+    change (fun c : rune => (c =? ch "+") || (c =? ch "-")) with isSign. rewrite H1.
+    assert (Hs1 : sdrop (Z.to_nat (cur + 1)) inp = sdrop 1 s) by (apply (sdrop_at inp cur s 1); auto; lia).
+    rewrite Hs1.
+    destruct (headP isSign (sdrop 1 s)) eqn:E1; cbv beta iota.
+    + assert (Hs2 : sdrop (Z.to_nat (cur + 1 + 1)) inp = sdrop 1 (sdrop 1 s)).
+      { replace (cur + 1 + 1) with (cur + Z.of_nat 2) by lia. rewrite (sdrop_at inp cur s 2); auto; [|lia].
+        rewrite sdrop_sdrop. reflexivity. }
+      pose proof (span_le isDigit (sdrop 1 (sdrop 1 s))) as Hsp. rewrite !slen_sdrop in Hsp.
+      destruct (acceptAll_cls isDigit isDigit_ascii fuel inp st (cur + 1 + 1) 1 false) as (w2 & H2);
+        [lia|rewrite Hs2; lia|].
+      rewrite H2, Hs2. cbv beta iota.
+      rewrite newToken_mkL by lia.
+      f_equal. f_equal; [f_equal; f_equal; lia|apply mkL_eq; lia].
+    + pose proof (span_le isDigit (sdrop 1 s)) as Hsp. rewrite !slen_sdrop in Hsp.
+      destruct (acceptAll_cls isDigit isDigit_ascii fuel inp st (cur + 1) w1 false) as (w2 & H2);
+        [lia|rewrite Hs1; lia|].
+      rewrite H2, Hs1. cbv beta iota. change (sdrop 0 (sdrop 1 s)) with (sdrop 1 s) in *.
+      rewrite newToken_mkL by lia.
+      f_equal. f_equal; [f_equal; f_equal; lia|apply mkL_eq; lia].
+  - rewrite newToken_mkL by lia.
+    f_equal. f_equal; [f_equal; f_equal; lia|apply mkL_eq; lia].
+Qed.
+
+Lemma sbind_assoc {S A B C} (m : SM S A) (k : A -> SM S B) (h : B -> SM S C) s :
+  sbind m (fun z => sbind (k z) h) s = sbind (sbind m k) h s.
+Proof. unfold sbind. destruct (m s) as [[a s']| | |]; reflexivity. Qed.
+
+(* scan_number_fun: scanNumber, from a state whose token starts at the current position, returns
+   the number token made of the first [num_len s] bytes of the remaining input s *)
+Theorem scan_number_fun fuel inp cur wd s : 0 <= cur <= Z.of_nat (slen inp) ->
+  sdrop (Z.to_nat cur) inp = s -> (slen s < fuel)%nat ->
+  scanNumber fuel (mkL inp cur cur wd) =
+  ROk ({| ttype := typeNumber; tvalue := stake (num_len s) s; tpos := cur |},
+       mkL inp (cur + Z.of_nat (num_len s)) (cur + Z.of_nat (num_len s)) 0).
+Proof.
+  intros [Hc Hcl] Hs Hf.
+  assert (Hlen : cur + Z.of_nat (slen s) <= Z.of_nat (slen inp)).
+  { rewrite <- Hs, slen_sdrop. lia. }
+  assert (Hval : forall n, (n <= slen s)%nat ->
+            sslice (Z.to_nat cur) (Z.to_nat (cur + Z.of_nat n)) inp = stake n s).
+  { intros n Hn. unfold sslice. replace (Z.to_nat (cur + Z.of_nat n) - Z.to_nat cur)%nat with n by lia.
+    rewrite Hs. reflexivity. }
+  pose proof (num_len_le s) as Hnl. pose proof (int_len_le s) as Hil.
+  unfold scanNumber. rewrite sbind_assoc.
+  destruct (scan_int fuel inp cur cur wd s Hc Hs Hf) as (w0 & H0).
+  unfold sbind at 1. rewrite H0. clear H0.
+  unfold num_len in *. cbv zeta in *. set (i := int_len s) in *.
+  unfold sbind at 1. cbn [mkL current].
+  assert (Hs1 : sdrop (Z.to_nat (cur + Z.of_nat i)) inp = sdrop i s) by (apply sdrop_at; auto).
+  assert (Hl1 : slen (sdrop i s) = (slen s - i)%nat) by apply slen_sdrop.
+  unfold sbind at 1. unfold acceptRune.
+  destruct (accept_cls isDot ltac:(unfold isDot; intros; lia) inp cur (cur + Z.of_nat i) w0 ltac:(lia)) as (w1 & H1).
+  change (fun c : rune => c =? ch ".") with isDot. rewrite H1, Hs1.
+  destruct (headP isDot (sdrop i s)) eqn:Ed.
+  - pose proof (headP_nonempty _ _ Ed) as Hne.
+    assert (Hs2 : sdrop (Z.to_nat (cur + Z.of_nat i + 1)) inp = sdrop 1 (sdrop i s)).
+    { replace (cur + Z.of_nat i + 1) with (cur + Z.of_nat (i + 1)) by lia.
+      rewrite (sdrop_at inp cur s (i + 1)); auto. rewrite sdrop_sdrop. reflexivity. }
+    pose proof (span_le isDigit (sdrop 1 (sdrop i s))) as Hsp. rewrite !slen_sdrop in Hsp.
+    destruct (acceptAll_cls isDigit isDigit_ascii fuel inp cur (cur + Z.of_nat i + 1) 1 false) as (w2 & H2);
+      [lia|rewrite Hs2; lia|].
+    change (acceptAllLoop fuel isDigit false) with (acceptAll fuel isDigit) in H2.
+    unfold sbind at 1. rewrite H2, Hs2. cbn [orb].
+    set (d := span isDigit (sdrop 1 (sdrop i s))) in *.
+    destruct (Nat.eqb d 0) eqn:Ed0.
+    + cbn [negb]. unfold sbind at 1.
+      change (set_current (cur + Z.of_nat i) (mkL inp cur (cur + Z.of_nat i + 1 + Z.of_nat d) w2))
+        with (mkL inp cur (cur + Z.of_nat i) w2).
+      rewrite newToken_mkL by lia. rewrite Hval by lia. reflexivity.
+    + cbn [negb].
+      assert (Hs3 : sdrop (Z.to_nat (cur + Z.of_nat i + 1 + Z.of_nat d)) inp = sdrop (1 + d) (sdrop i s)).
+      { replace (cur + Z.of_nat i + 1 + Z.of_nat d) with (cur + Z.of_nat (i + (1 + d))) by lia.
+        rewrite (sdrop_at inp cur s (i + (1 + d))); auto. rewrite sdrop_sdrop. reflexivity. }
+      rewrite (scan_exp fuel inp cur (cur + Z.of_nat i + 1 + Z.of_nat d) w2 _ ltac:(lia) Hs3); [|rewrite !slen_sdrop; lia|rewrite !slen_sdrop; lia].
+      cbv zeta.
+      pose proof (exp_len_le (sdrop (1 + d) (sdrop i s))) as Hel. rewrite !slen_sdrop in Hel.
+      replace (cur + Z.of_nat i + 1 + Z.of_nat d + Z.of_nat (exp_len (sdrop (1 + d) (sdrop i s))))
+        with (cur + Z.of_nat (i + 1 + d + exp_len (sdrop (1 + d) (sdrop i s)))) by lia.
+      rewrite Hval by lia. reflexivity.
+  - rewrite (scan_exp fuel inp cur (cur + Z.of_nat i) w1 _ ltac:(lia) Hs1); [|rewrite Hl1; lia|rewrite Hl1; lia].
+    cbv zeta.
+    pose proof (exp_len_le (sdrop i s)) as Hel. rewrite Hl1 in Hel.
+    replace (cur + Z.of_nat i + Z.of_nat (exp_len (sdrop i s)))
+      with (cur + Z.of_nat (i + exp_len (sdrop i s))) by lia.
+    rewrite Hval by lia. reflexivity.
+Qed.
+
+Lemma lookupSymbol1_digit c : isDigit c = true -> lookupSymbol1 c = typeEOF.
+Proof.
+  unfold isDigit, lookupSymbol1, symbols1, symbol1Count. change (ch "0") with 48. change (ch "9") with 57. intros H.
+  destruct ((c <? 0) || (126 <=? c)); [reflexivity|].
+  repeat (match goal with |- (if ?b then _ else _) = _ =>
+            let E := fresh "E" in destruct b eqn:E;
+            [apply Z.eqb_eq in E; subst c; discriminate H|] end).
+  reflexivity.
+Qed.
+
+Lemma backup_mkL inp st cur wd : backup (mkL inp st cur wd) = ROk (tt, mkL inp st (cur - wd) wd).
+Proof. reflexivity. Qed.
+
+(* scan_number_spec: where the remaining input starts with a digit, [next] returns the number
+   token consisting of its first [num_len] bytes *)
+Theorem scan_number_spec fuel allowRegex inp st cur wd s :
+  0 <= cur -> sdrop (Z.to_nat cur) inp = s -> headP isDigit s = true -> (slen s < fuel)%nat ->
+  next fuel allowRegex (mkL inp st cur wd) =
+  ROk ({| ttype := typeNumber; tvalue := stake (num_len s) s; tpos := cur |},
+       mkL inp (cur + Z.of_nat (num_len s)) (cur + Z.of_nat (num_len s)) 0).
+Proof.
+  intros Hc Hs Hd Hf.
+  destruct s as [|c r] eqn:Es; [discriminate|]. cbn [headP] in Hd.
+  pose proof (isDigit_ascii _ Hd) as Hca.
+  assert (Hlt : (Z.to_nat cur < slen inp)%nat).
+  { apply sdrop_nonempty_lt. rewrite Hs. discriminate. }
+  assert (Hws : ws_len (String c r) = 0%nat).
+  { cbn [ws_len]. unfold is_ws_byte. destruct (isWhitespace (byte_of c)) eqn:E; [|reflexivity].
+    unfold isWhitespace, isDigit in *. change (ch " ") with 32 in E. change (ch "0") with 48 in Hd. lia. }
+  unfold next. unfold sbind at 1.
+  rewrite skipWhitespace_mkL; [|exact Hc|rewrite Hs, Hws; lia].
+  rewrite Hs, Hws. replace (cur + Z.of_nat 0) with cur by lia. rewrite Hs.
+  unfold sbind at 1. rewrite nextRune_mkL by exact Hc. rewrite Hs. cbv beta iota zeta.
+  rewrite decode_rune_ascii by lia. cbn [fst snd].
+  replace (byte_of c =? eof) with false by (unfold eof; lia).
+  replace (allowRegex && (byte_of c =? ch "/")) with false
+    by (unfold isDigit in Hd; change (ch "0") with 48 in Hd; change (ch "/") with 47; lia).
+  rewrite (lookupSymbol2_digit _ Hd). cbn [trySymbols2]. unfold sbind at 1. unfold sret at 1.
+  rewrite (lookupSymbol1_digit _ Hd). cbn [tt_pos tt_eqb tt_num Nat.eqb negb].
+  replace ((byte_of c =? ch """") || (byte_of c =? ch "'")) with false
+    by (unfold isDigit in Hd; change (ch "0") with 48 in Hd; change (ch """") with 34; change (ch "'") with 39; lia).
+  change ((ch "0" <=? byte_of c) && (byte_of c <=? ch "9")) with (isDigit (byte_of c)). rewrite Hd.
+  unfold sbind at 1. rewrite backup_mkL.
+  replace (cur + Z.of_nat 1 - Z.of_nat 1) with cur by lia.
+  apply scan_number_fun; auto. lia.
+Qed.
+
+(* ---- 5.2 the JSON number grammar is accepted token-exactly ---- *)
+
+(* what may follow a number: anything that cannot continue the token *)
+Definition number_stop (rest : string) : bool :=
+  negb (headP isDigit rest) && negb (headP isDot rest) && negb (headP isE rest).
+
+Lemma span_digits d rest : all_digits d = true -> headP isDigit rest = false ->
+  span isDigit (d ++ rest) = slen d.
+Proof.
+  intros Hd Hr. induction d as [|c d IH]; cbn [append span slen String.length].
+  - destruct rest as [|c r]; [reflexivity|]. cbn [headP span] in *. rewrite Hr. reflexivity.
+  - cbn [all_digits] in Hd. apply andb_true_iff in Hd as [H1 H2].
+    replace (isDigit (byte_of c)) with true by (unfold isDigit, is_digit_char in *; change (ch "0") with 48; change (ch "9") with 57; lia).
+    rewrite IH by exact H2. reflexivity.
+Qed.
+
+Lemma digits1_facts d : digits1 d = true -> all_digits d = true /\ (1 <= slen d)%nat /\
+  headP isDigit d = true.
+Proof.
+  destruct d as [|c r]; [discriminate|]. cbn [digits1 all_digits headP]. intros H.
+  split; [exact H|]. split; [cbn [slen String.length]; lia|].
+  apply andb_true_iff in H as [H _]. unfold isDigit, is_digit_char in *.
+  change (ch "0") with 48. change (ch "9") with 57. lia.
+Qed.
+
+Lemma headP_app_nonempty P c a b : headP P (String c a ++ b) = P (byte_of c).
+Proof. reflexivity. Qed.
+
+Lemma exp_len_json e rest : jexp e = true -> number_stop rest = true ->
+  exp_len (e ++ rest) = slen e.
+Proof.
+  intros He Hst. unfold number_stop in Hst.
+  apply andb_true_iff in Hst as [Hst H3]. apply andb_true_iff in Hst as [H1 H2].
+  apply negb_true_iff in H1, H2, H3.
+  destruct e as [|c r].
+  - cbn [append slen String.length]. unfold exp_len. rewrite H3. reflexivity.
+  - cbn [jexp] in He. apply andb_true_iff in He as [Hc Hr].
+    unfold exp_len. cbn [append headP]. replace (isE (byte_of c)) with true by (unfold isE; lia).
+    cbn [sdrop]. cbv zeta.
+    destruct r as [|sg d]; [discriminate|].
+    destruct ((byte_of sg =? 43) || (byte_of sg =? 45)) eqn:Es.
+    + destruct (digits1_facts d Hr) as (Hd & _ & _).
+      cbn [append headP]. replace (isSign (byte_of sg)) with true by (unfold isSign; lia).
+      cbn [sdrop]. rewrite span_digits by auto. cbn [slen String.length]. unfold slen. lia.
+    + destruct (digits1_facts (String sg d) Hr) as (Hd & _ & _).
+      cbn [append headP]. replace (isSign (byte_of sg)) with false by (unfold isSign; lia).
+      cbn [sdrop]. change (String sg (d ++ rest)) with (String sg d ++ rest).
+      rewrite span_digits by auto. cbn [slen String.length]. lia.
+Qed.
+
+Lemma exp_head_not_digit_dot e rest : jexp e = true -> number_stop rest = true ->
+  headP isDigit (e ++ rest) = false /\ headP isDot (e ++ rest) = false.
+Proof.
+  intros He Hst. unfold number_stop in Hst.
+  apply andb_true_iff in Hst as [Hst H3]. apply andb_true_iff in Hst as [H1 H2].
+  apply negb_true_iff in H1, H2, H3.
+  destruct e as [|c r]; [cbn [append]; auto|].
+  cbn [jexp] in He. apply andb_true_iff in He as [Hc _]. cbn [append headP].
+  unfold isDigit, isDot. change (ch "0") with 48. change (ch "9") with 57. split; lia.
+Qed.
+
+(* num_len_json: on the text of a JSON number followed by something that cannot continue a
+   number, scanNumber stops exactly at the end of the number *)
+Theorem num_len_json i f e rest : jint i = true -> jfrac f = true -> jexp e = true ->
+  number_stop rest = true ->
+  num_len ((i ++ f ++ e) ++ rest) = slen (i ++ f ++ e).
+Proof.
+  intros Hi Hfr He Hst.
+  destruct (exp_head_not_digit_dot e rest He Hst) as [Hed Hedot].
+  rewrite !sapp_assoc. set (x := f ++ e ++ rest).
+  assert (Hx : headP isDigit x = false).
+  { unfold x. destruct f as [|c d]; [exact Hed|]. cbn [jfrac] in Hfr. apply andb_true_iff in Hfr as [Hc _].
+    cbn [append headP]. unfold isDigit. change (ch "0") with 48. change (ch "9") with 57. lia. }
+  assert (Hil : int_len (i ++ x) = slen i).
+  { unfold int_len. destruct i as [|c r]; [discriminate|]. cbn [jint] in Hi. cbn [append headP].
+    destruct (byte_of c =? 48) eqn:E0.
+    - destruct r; [|discriminate]. replace (is0 (byte_of c)) with true by (unfold is0; lia). reflexivity.
+    - apply andb_true_iff in Hi as [Hc Hr].
+      replace (is0 (byte_of c)) with false by (unfold is0; lia).
+      replace (isNonZeroDigit (byte_of c)) with true
+        by (unfold isNonZeroDigit; change (ch "1") with 49; change (ch "9") with 57; lia).
+      cbn [sdrop]. rewrite span_digits by auto. reflexivity. }
+  unfold num_len. cbv zeta. rewrite Hil, sdrop_app_exact. subst x.
+  rewrite !slen_app.
+  destruct f as [|c d].
+  - cbn [append]. rewrite Hedot. rewrite exp_len_json by auto. cbn [slen String.length]. lia.
+  - cbn [jfrac] in Hfr. apply andb_true_iff in Hfr as [Hc Hd].
+    destruct (digits1_facts d Hd) as (Had & Hl & _).
+    cbn [append headP]. replace (isDot (byte_of c)) with true by (unfold isDot; lia).
+    cbn [sdrop]. rewrite span_digits by auto.
+    destruct (Nat.eqb_spec (slen d) 0) as [E|E]; [lia|].
+    change (String c (d ++ e ++ rest)) with (String c d ++ e ++ rest).
+    replace (1 + slen d)%nat with (slen (String c d)) by reflexivity.
+    rewrite sdrop_app_exact. rewrite exp_len_json by auto.
+    cbn [slen String.length]. unfold slen. lia.
+Qed.
+
+(* C11 numbers, lexer part: the text of a JSON number (followed by something that cannot
+   continue a number) lexes as ONE number token whose value is exactly that text *)
+Theorem scan_json_number fuel allowRegex inp st cur wd t rest :
+  jnumber_text t -> number_stop rest = true -> 0 <= cur ->
+  sdrop (Z.to_nat cur) inp = t ++ rest -> (slen (t ++ rest) < fuel)%nat ->
+  next fuel allowRegex (mkL inp st cur wd) =
+  ROk ({| ttype := typeNumber; tvalue := t; tpos := cur |},
+       mkL inp (cur + Z.of_nat (slen t)) (cur + Z.of_nat (slen t)) 0).
+Proof.
+  intros Ht Hst Hc Hs Hf. destruct Ht as [i f e Hi Hfr He].
+  rewrite (scan_number_spec fuel allowRegex inp st cur wd _ Hc Hs); [| |exact Hf].
+  - rewrite num_len_json by auto. rewrite stake_app_exact. reflexivity.
+  - destruct i as [|c r]; [discriminate|]. cbn [jint] in Hi. cbn [append headP].
+    unfold isDigit. change (ch "0") with 48. change (ch "9") with 57.
+    destruct (byte_of c =? 48) eqn:E0; [lia|]. apply andb_true_iff in Hi as [Hi _]. lia.
+Qed.
+
+Print Assumptions scan_number_spec.
+Print Assumptions scan_json_number.
+
+Example scan_json_number_ex :
+  jnumber_text "12.50e-3" /\ number_stop "]" = true /\
+  (exists l, next 20 true (newLexer "12.50e-3]") = ROk ({| ttype := typeNumber; tvalue := "12.50e-3"; tpos := 0 |}, l)) /\
+  (* what scanNumber accepts beyond JSON: an exponent without digits is still one token (and is
+     then rejected by the number conversion); a dot without digits ends the token before it *)
+  num_len "1e+" = 3%nat /\ num_len "1.e5" = 1%nat /\ num_len "01" = 1%nat.
+Proof.
+  split; [apply (jn_parts "12" ".50" "e-3"); reflexivity|].
+  split; [reflexivity|]. split; [eexists; vm_compute; reflexivity|]. vm_compute. auto.
+Qed.
 
 (* do not leak the div/mod pre-processing of [lia] to importers *)
 Ltac Zify.zify_post_hook ::= idtac.
